@@ -1,12 +1,14 @@
 use std::{
-    io::{BufRead, ErrorKind, Result as IoResult},
+    io::{BufRead, Chain, Cursor, ErrorKind, Read, Result as IoResult},
     slice,
 };
 
 use super::encoding::Encoding;
 
 pub struct Decoder<R> {
-    inner: R,
+    // Bytes that had to be consumed while looking for the BOM are chained in
+    // front of the remaining reader.
+    inner: Chain<Cursor<Vec<u8>>, R>,
     read_buf: Vec<u8>,
     // Only used for UTF-16/invalid UTF-8 encoded data
     decode_buf: String,
@@ -15,16 +17,23 @@ pub struct Decoder<R> {
 
 impl<R: BufRead> Decoder<R> {
     pub fn new(mut inner: R) -> IoResult<Self> {
+        let (encoding, prefix) = Self::read_bom(&mut inner)?;
+
         Ok(Self {
-            encoding: Self::read_bom(&mut inner)?,
+            encoding,
             read_buf: Vec::new(),
             decode_buf: String::new(),
-            inner,
+            inner: Cursor::new(prefix).chain(inner),
         })
     }
 
-    fn read_bom(reader: &mut R) -> IoResult<Encoding> {
-        let buf = loop {
+    /// Returns the encoding and the non-BOM bytes that had to be consumed to
+    /// determine it.
+    fn read_bom(reader: &mut R) -> IoResult<(Encoding, Vec<u8>)> {
+        // Only filled if the reader provides less than three bytes at once
+        let mut prefix = Vec::new();
+
+        loop {
             let available = match reader.fill_buf() {
                 Ok(n) => n,
                 Err(ref err) if err.kind() == ErrorKind::Interrupted => continue,
@@ -33,17 +42,26 @@ impl<R: BufRead> Decoder<R> {
 
             let len = available.len();
 
-            if len >= 3 || len == 0 {
-                break available;
+            if prefix.is_empty() && (len >= 3 || len == 0) {
+                let (encoding, consumed) = Encoding::from_bom(available);
+                reader.consume(consumed);
+
+                return Ok((encoding, prefix));
             }
 
-            reader.consume(len);
-        };
+            let take = len.min(3 - prefix.len());
+            prefix.extend_from_slice(&available[..take]);
+            reader.consume(take);
 
-        let (encoding, consumed) = Encoding::from_bom(buf);
-        reader.consume(consumed);
+            if len == 0 || prefix.len() == 3 {
+                break;
+            }
+        }
 
-        Ok(encoding)
+        let (encoding, consumed) = Encoding::from_bom(&prefix);
+        prefix.drain(..consumed);
+
+        Ok((encoding, prefix))
     }
 
     pub fn read_line(&mut self) -> IoResult<Option<&str>> {
